@@ -36,37 +36,7 @@ func simCampaign(prop string, enable func(*Monitors), clients bool) vk.Campaign 
 				"the replica dispatched an ExecuteEvent holding the command, every success command is in the replica's committed chain, executed count <= distinct committed commands, digest = commands in chain order when every " +
 				"executed command had a waiter, digests equal across replicas at equal command counts; non-trivial: >=2 honest replicas executed commands; distinct: full step trace"
 		}
-		n := p.N(1200, 120000)
-		if clients {
-			n = p.N(500, 50000)
-		}
-		for i := 0; i < n; i++ {
-			rng := vbase.NewRng(p.Seed, "sim", p.Shard, p.NShards, i)
-			profile := Profiles[rng.Weighted([]int{3, 5, 4, 3, 1})]
-			cfg := GenConfig(rng, profile)
-			cfg.Clients = clients
-			c, err := NewCluster(cfg, rng, r)
-			if err != nil {
-				r.Inconclusive("cannot build cluster: " + err.Error())
-				return
-			}
-			enable(c.Mon)
-			c.OnHang = func(site string, tail []TraceEntry) {
-				rep := map[string]any{"engine": "vsim", "seed": p.Seed, "shard": p.Shard, "nshards": p.NShards, "case": i, "config": cfg.String(), "trace_tail": tail}
-				if site == "harness" || site == "unknown" {
-					r.Inconclusive("execution watchdog fired outside repository code (case " + fmt.Sprint(i) + ")")
-				} else if prop == "C05" {
-					r.Violate(vbase.Sig("hang", "site", site), fmt.Sprintf("a replica's event loop thread is stuck (60s, no blocking call) inside %s [%s]", site, cfg.String()), rep)
-				} else {
-					// a hang is a progress failure (C05), not a refutation of this property: this execution is abandoned
-					r.Obs("executions_abandoned_replica_hang", 1)
-					r.Note("execution abandoned: a replica hangs inside %s (judged under C05)", site)
-					r.Inconclusive("a replica hung inside " + site + "; the rest of this shard could not run")
-				}
-				_ = r.Write(p.Out)
-			}
-			c.Run()
-			c.Close()
+		finish := func(c *Cluster, cfgStr string, idx int, profile string) {
 			committed, voted, advanced := 0, 0, 0
 			for _, a := range c.Actors {
 				if !a.Judged() {
@@ -121,10 +91,10 @@ func simCampaign(prop string, enable func(*Monitors), clients bool) vk.Campaign 
 				}
 			}
 			r.Obs("honest_commits_max_sum", int64(maxc))
-			if len(cfg.Twins) > 0 {
+			if len(c.Cfg.Twins) > 0 {
 				r.Obs("executions_with_twins", 1)
 			}
-			if len(cfg.Scripted) > 0 {
+			if len(c.Cfg.Scripted) > 0 {
 				r.Obs("executions_with_scripted_byzantine", 1)
 			}
 			for _, v := range c.Mon.Viol {
@@ -132,13 +102,66 @@ func simCampaign(prop string, enable func(*Monitors), clients bool) vk.Campaign 
 					r.Obs("violations_of_other_properties_seen_"+v.Prop, 1)
 					continue
 				}
-				logs := map[string][]string{}
-				r.Violate(vbase.Sig(v.Sig, "ruleset", cfg.Ruleset), fmt.Sprintf("%s [%s]", v.Msg, cfg.String()),
-					map[string]any{"engine": "vsim", "seed": p.Seed, "shard": p.Shard, "nshards": p.NShards, "case": i, "config": cfg.String(), "summary": c.Summary(), "trace": c.Trace, "logs": logs})
+				r.Violate(vbase.Sig(v.Sig, "ruleset", c.Cfg.Ruleset), fmt.Sprintf("%s [%s]", v.Msg, cfgStr),
+					map[string]any{"engine": "vsim", "seed": p.Seed, "shard": p.Shard, "nshards": p.NShards, "case": idx, "config": cfgStr, "summary": c.Summary(), "trace": c.Trace})
 			}
 			if nt && r.WantSample() && c.FaultSteps > 2 {
 				r.Sample(c.Summary())
 			}
+		}
+		// directed scenario library first
+		if !clients {
+			di := 0
+			for _, name := range DirectedNames {
+				for _, rs := range Rulesets {
+					for _, nn := range []int{4, 7} {
+						for variant := 0; variant < 4; variant++ {
+							di++
+							if !p.Mine(di) {
+								continue
+							}
+							rng := vbase.NewRng(p.Seed, "directed", name, rs, nn, variant)
+							c := RunDirected(name, variant, rs, nn, "eddsa", rng, r, enable)
+							if c != nil {
+								finish(c, c.Cfg.String()+" "+c.Cfg.Label, -di, "directed")
+							}
+						}
+					}
+				}
+			}
+		}
+		n := p.N(1200, 120000)
+		if clients {
+			n = p.N(500, 50000)
+		}
+		for i := 0; i < n; i++ {
+			rng := vbase.NewRng(p.Seed, "sim", p.Shard, p.NShards, i)
+			profile := Profiles[rng.Weighted([]int{3, 5, 4, 3, 1})]
+			cfg := GenConfig(rng, profile)
+			cfg.Clients = clients
+			c, err := NewCluster(cfg, rng, r)
+			if err != nil {
+				r.Inconclusive("cannot build cluster: " + err.Error())
+				return
+			}
+			enable(c.Mon)
+			c.OnHang = func(site string, tail []TraceEntry) {
+				rep := map[string]any{"engine": "vsim", "seed": p.Seed, "shard": p.Shard, "nshards": p.NShards, "case": i, "config": cfg.String(), "trace_tail": tail}
+				if site == "harness" || site == "unknown" {
+					r.Inconclusive("execution watchdog fired outside repository code (case " + fmt.Sprint(i) + ")")
+				} else if prop == "C05" {
+					r.Violate(vbase.Sig("hang", "site", site), fmt.Sprintf("a replica's event loop thread is stuck (60s, no blocking call) inside %s [%s]", site, cfg.String()), rep)
+				} else {
+					// a hang is a progress failure (C05), not a refutation of this property: this execution is abandoned
+					r.Obs("executions_abandoned_replica_hang", 1)
+					r.Note("execution abandoned: a replica hangs inside %s (judged under C05)", site)
+					r.Inconclusive("a replica hung inside " + site + "; the rest of this shard could not run")
+				}
+				_ = r.Write(p.Out)
+			}
+			c.Run()
+			c.Close()
+			finish(c, cfg.String(), i, profile)
 		}
 	}
 }
